@@ -147,6 +147,13 @@ theorem com_not_weighted_mean_counterexample :
   rw [h2] at h1
   norm_num at h1
 
+
+/-- `com = com_x + 1j * com_y` packs the two real moments into one complex number: real part `x`, imaginary part `y`. -/
+theorem comPack_re_im (cx cy : ℝ) :
+    (AbtemVerif.Gen.ComC.comPack (cx : ℂ) (cy : ℂ)).re = cx ∧ (AbtemVerif.Gen.ComC.comPack (cx : ℂ) (cy : ℂ)).im = cy := by
+  unfold AbtemVerif.Gen.ComC.comPack
+  constructor <;> simp
+
 /-! ### coordinates [1/Å] -/
 
 lemma coords_shifted (n : Nat) (s : Rat) :
